@@ -263,6 +263,8 @@ def workbook_case(ctx, case: dict, tag: str, advisory: bool = False, must_conver
         ctx.count("unsupported:" + m.get("why", ""))
         ctx.record({"wb": case}, True)
         return r
+    if m.get("old_fragment"):
+        ctx.count("model:old_fragment")
     if m["outcome"] == "error":
         ctx.mismatch("model predicts an error, implementation converts", case, r["warnings"], m)
         ctx.record({"wb": case}, True)
@@ -310,6 +312,7 @@ def iana_from_model(ctx, case, r, xform_langs):
     for s_ in ("survey", "choices"):
         for c in cols_of(case, s_):
             cand.update(p.strip() for p in c.split("::")[1:])
+            cand.update(p.strip() for p in c.split(":")[1:] if p.strip())
     for row in case.get("settings") or []:
         cand.update(str(v) for v in row.values())
     tags = relevant_tags(sorted(cand))
@@ -506,6 +509,12 @@ def header_cases(ctx, n):
             h = h + "::" + rng.choice(LANG_WORDS) + "::" + rng.choice(LANG_WORDS)
         elif k < 0.55:
             h = h + ":" + rng.choice(LANG_WORDS)
+        elif k < 0.75:
+            # phase 8: the single-colon branch, with `jr` tokens in every position (last position: IndexError)
+            toks = [rng.choice(HEADER_WORDS + ["jr", "jr", " jr ", "bind", "media"])]
+            for _ in range(rng.choice([0, 1, 1, 2, 3])):
+                toks.append(rng.choice(LANG_WORDS + ["jr", "jr", " jr", "constraintMsg", "count", "JR", "jr "]))
+            h = rng.choice([":", ":", " : "]).join(toks)
         use_dc = "::" in h or rng.random() < 0.5
         sheet = rng.choice(["survey", "choices"])
         try:
@@ -514,6 +523,10 @@ def header_cases(ctx, n):
             impl = ["<exception>", type(e).__name__]
         mo = ctx.driver.call("warn.header", header=h, use_dc=use_dc, sheet=sheet)
         ctx.count("header:cases")
+        if ":" in h.replace("::", "") and not use_dc:
+            ctx.count("header:single_colon")
+        if impl[:1] == ["<exception>"]:
+            ctx.count("header:impl_raises_" + impl[1])
         if mo is None:
             ctx.count("header:unsupported")
         elif impl != mo:
@@ -1020,6 +1033,134 @@ def directed_cases(ctx):
 # --------------------------------------------------------------------------- explore / replay
 
 
+
+# --------------------------------------------------------------------------- phase 8: single-colon headers, jr:, begin-row defaults
+
+BEGIN_DEFAULTS = ["1", "abc", "today()", "now()", "1 + 2", "a - b", "2020-01-01", "-1", "a | b", "x[1]", "uuid()", "a  b", "${q1}"]
+
+
+def recolon(rng, header: str, mode: str) -> str:
+    """`a::b` -> `a:b` (mode single), with optional spaces around the delimiter"""
+    if "::" not in header or mode == "double":
+        return header
+    d = rng.choice([":", ":", " : ", ": "])
+    return d.join(header.split("::"))
+
+
+def rekey(rows, f):
+    return [{f(k): v for k, v in r.items()} for r in rows]
+
+
+def colon_default_case(rng, big=False) -> dict:
+    """a generated form whose grouped headers use the single-colon delimiter on one / both / part of the sheets,
+    with `jr:`-prefixed columns and `default` cells on begin rows"""
+    case = triggered_form(rng, big=big)
+    k = rng.random()
+    sheets = ["survey", "choices"] if k < 0.5 else (["survey"] if k < 0.8 else ["choices"])
+    partial = rng.random() < 0.15  # only some headers re-delimited: the sheet still counts as double-colon
+    for s_ in sheets:
+        if not case.get(s_):
+            continue
+        keys = cols_of(case, s_)
+        m = {}
+        for c in keys:
+            m[c] = recolon(rng, c, "double" if (partial and rng.random() < 0.5) else "single")
+        if len(set(m.values())) != len(m):
+            continue
+        case[s_] = rekey(case[s_], lambda c, m=m: m[c])
+        if case.get(s_ + "_cols"):
+            case[s_ + "_cols"] = [m.get(c, c) for c in case[s_ + "_cols"]]
+    survey = case["survey"]
+    # jr: columns
+    if rng.random() < 0.5:
+        col = rng.choice(["jr:constraintMsg", "bind:jr:constraintMsg", "bind : jr : requiredMsg", "jr:requiredMsg", "jr:count",
+                          "bind::jr:constraintMsg", "jr:noAppErrorString", "bind:jr:constraintMsg:English (en)",
+                          "constraint_message:French (fr)", "media:image:French (fr)", "media:audio", "hint: fr"])
+        hit = False
+        for row in survey:
+            t = row.get("type", "")
+            if col == "jr:count":
+                if t.startswith("begin repeat") or t.startswith("begin_repeat"):
+                    row[col] = "3"
+                    hit = True
+            elif t in ("text", "integer", "note") and rng.random() < 0.6:
+                row[col] = "m.png" if "image" in col else ("m.mp3" if "audio" in col else "msg")
+                hit = True
+        if not hit:
+            case["survey_cols"] = list(case.get("survey_cols") or []) + [col]
+    # default on begin rows
+    names = [r.get("name") for r in survey if r.get("type") in ("text", "integer") and r.get("name")]
+    for row in survey:
+        t = row.get("type", "")
+        if t.startswith(("begin ", "begin_")) and rng.random() < 0.6:
+            d = rng.choice(BEGIN_DEFAULTS)
+            if d == "${q1}":
+                if not names:
+                    continue
+                d = "${%s}" % rng.choice(names)
+            row["default"] = d
+            if rng.random() < 0.5:
+                for k_ in [k_ for k_ in row if k_.startswith(("label", "image", "media"))]:
+                    row.pop(k_)
+    return case
+
+
+def colon_default_enum(ctx):
+    """seed-independent: translatable columns with each delimiter spelling on either sheet (missing-translation and
+    IANA warnings through the single-colon branch), and begin group / repeat x default value x label or not"""
+    yn = [{"list_name": "yn", "name": "y", "label": "Yes"}, {"list_name": "yn", "name": "n", "label": "No"}]
+    for d in (":", " : ", "::", ": "):
+        for cols in (["label{d}English (en)", "hint{d}French (fr)"], ["label{d}English (en)", "label{d}fr", "image{d}English (en)"],
+                     ["label", "hint{d}Deutsch (de)"], ["label{d}English (en)", "bind{d}jr:constraintMsg{d}French"],
+                     ["label{d}English (en)", "media{d}audio{d}Klingon (tlh)"], ["label{d}English (en)", "constraint_message{d}English (en)"]):
+            hs = [c.format(d=d) for c in cols]
+            for sheet in ("survey", "choices"):
+                q = {"type": "select_one yn or_other" if sheet == "choices" and d != "::" else "select_one yn", "name": "q1"}
+                ch = [dict(c) for c in yn]
+                if sheet == "survey":
+                    for h in hs:
+                        q[h] = "a.png" if "image" in h else ("a.mp3" if "audio" in h else "text")
+                    if not any(h.startswith("label") for h in hs):
+                        q["label"] = "Q"
+                else:
+                    q["label"] = "Q"
+                    for c in ch:
+                        for h in hs:
+                            if h.startswith(("label", "image", "media")):
+                                c[h] = "a.png" if "image" in h else ("a.mp3" if "audio" in h else "text")
+                        if any(h.startswith("label") and h != "label" for h in hs):
+                            c.pop("label", None)
+                case = {"survey": [q], "choices": ch}
+                ctx.count("colon_enum:cases")
+                workbook_case(ctx, case, "colon_enum")
+    for ctl in ("group", "repeat"):
+        for dflt in BEGIN_DEFAULTS:
+            for lab in ({}, {"label": "Sec"}, {"hint": "h"}, {"appearance": "field-list"}):
+                sec = {"type": f"begin {ctl}", "name": "s1", "default": dflt, **lab}
+                case = {"survey": [{"type": "text", "name": "q1", "label": "Q1"}, sec,
+                                   {"type": "text", "name": "q2", "label": "Q2"}, {"type": f"end {ctl}"}]}
+                ctx.count("begin_default_enum:cases")
+                workbook_case(ctx, case, "begin_default_enum")
+
+
+def colon_default_stream(ctx, n):
+    import random
+
+    rng = random.Random(f"C20:colon:{ctx.seed}")
+    pre = {k: ctx.dist.get(k, 0) for k in ("model:ok", "model:unsupported", "model:error", "model:old_fragment")}
+    for i in range(n):
+        case = colon_default_case(rng, big=not ctx.quick() and i % 5 == 0)
+        workbook_case(ctx, case, "colon", advisory=(i % 8 == 0))
+    d = {k: ctx.dist.get(k, 0) - v for k, v in pre.items()}
+    tot = d["model:ok"] + d["model:unsupported"] + d["model:error"]
+    ctx.notes["colon_default_stream"] = {
+        "converted_by_impl": tot, "model_answered": d["model:ok"], "unsupported_now": d["model:unsupported"],
+        "answered_by_the_phase7_model": d["model:old_fragment"],
+        "unsupported_share_before": round(1 - d["model:old_fragment"] / tot, 4) if tot else None,
+        "unsupported_share_after": round(d["model:unsupported"] / tot, 4) if tot else None,
+    }
+
+
 def explore(ctx, factor, bs):
     rng = ctx.rng
     directed_cases(ctx)
@@ -1037,6 +1178,8 @@ def explore(ctx, factor, bs):
     for i in range(n):
         case = triggered_form(rng, big=not ctx.quick() and i % 5 == 0)
         workbook_case(ctx, case, "gen", advisory=(i % 4 == 0))
+    colon_default_enum(ctx)
+    colon_default_stream(ctx, ctx.pick(400, 6000) * factor)
     ok = ctx.dist.get("model:ok", 0)
     tot = ok + ctx.dist.get("model:unsupported", 0) + ctx.dist.get("model:error", 0)
     ctx.notes["fragment_share"] = {"model_answered": ok, "converted_by_impl": tot, "share": round(ok / tot, 4) if tot else None}
